@@ -48,7 +48,7 @@ def GenRegValid (g : GenCfg) : Prop := g.wrk.validate = true ∧ g.bcn.validate 
 
 theorem bcnInv_init (g : GenCfg) (hg : GenRegValid g) : BcnInv (initState g).bcn := by
   refine ⟨rfl, ?_, ?_⟩
-  · constructor <;> simp [initState, NoDupKeys, keys, hg.2]
+  · constructor <;> simp [initState, NoDupKeys, keys, hg.2, RecsSorted]
   · constructor <;> simp [initState]
 
 /-- history assumption for the beacon module: no counter is about to wrap -/
@@ -72,7 +72,7 @@ theorem wrk_op_inv (now wall : Nat) (a b : RegState) (hi : WrkInv a) (hb : RegBo
 
 theorem wrkInv_init (g : GenCfg) (hg : GenRegValid g) : WrkInv (initState g).wrk := by
   refine ⟨rfl, ?_, ?_⟩
-  · constructor <;> simp [initState, NoDupKeys, keys, hg.1]
+  · constructor <;> simp [initState, NoDupKeys, keys, hg.1, RecsSorted]
   · constructor <;> simp [initState, keysOf]
 
 def WrkQ (s : State) : Prop := RegBounded s.wrk
